@@ -432,6 +432,9 @@ class Gen:
         self.calls = {}      # thread -> [(adapter, guard depth at entry)]
         self.done_ads = set()
         self.nad = 0
+        self.reserve = []     # spawned threads that make no tracing call until a cycle is in its report phase
+        self.step = None      # collector steps left in the stepped cycle in progress
+        self.registered = 0   # receivers in the registry (stepped mode: every thread is registered explicitly)
 
     # ------------------------------------------------------------------ emit
     def emit(self, t, text):
@@ -460,7 +463,7 @@ class Gen:
         return "%d:%s" % (re, wprops(self.kvs()))
 
     def live_threads(self):
-        return [t for t, th in self.s.threads.items() if th["alive"]]
+        return [t for t, th in self.s.threads.items() if th["alive"] and t not in self.reserve]
 
     # ------------------------------------------------------------------ ops (the expectation is updated by Spec.apply)
     def op_set_reporter(self):
@@ -669,11 +672,47 @@ class Gen:
         nt = self.k["threads"]
         for t in range(nt):
             self.op_spawn(t)
+        if self.k.get("stepped"):
+            # stepped collector cycles with operations falling between the steps: every thread registers its queue up
+            # front (a first use during a drain blocks on the registry lock, by design), two more threads are held back
+            # for the report phase, when the lock is free again
+            self.k["exits"] = False
+            for t in range(nt):
+                self.op_touch(t)
+            self.registered = nt
+            for t in range(nt, nt + 2):
+                self.op_spawn(t)
+                self.reserve.append(t)
         if not self.k["no_reporter"] and not self.k["late_reporter"]:
             self.op_set_reporter()
 
+    def begin_step(self):
+        self.emit(0, "cycBegin")
+        self.step = 2 * self.registered + 1      # rx / empty per receiver, then the report
+
+    def advance_step(self, force=False):
+        if not force and not self.r.chance(1, 2):
+            return
+        if self.step == 1 and self.reserve and self.r.chance(2, 3):
+            # every receiver has been visited: the cycle is post-processing / reporting and no longer holds the
+            # registry lock — a thread makes its first tracing call now
+            t = self.reserve.pop(0)
+            if self.r.chance(1, 2):
+                self.op_touch(t)
+            self.op_root(t, True)
+            self.registered += 1
+        self.emit(0, "cycStep")
+        self.step -= 1
+        if self.step == 0:
+            self.step = None
+
+    def finish_step(self):
+        while self.step is not None:
+            self.advance_step(force=True)
+
     def epilogue(self, drop_all=True):
         s = self.s
+        self.finish_step()
         for t in list(self.live_threads()):
             while s.th(t)["guards"]:
                 if self.in_call_top(t) is not None:
@@ -709,6 +748,12 @@ class Gen:
         self.op_stats()
 
     def maybe_cycle(self):
+        if self.step is not None:
+            self.advance_step()
+            return
+        if self.k.get("stepped") and self.s.reporter and self.r.chance(1, 5):
+            self.begin_step()
+            return
         if self.k.get("sleeps") and self.r.chance(1, 5):
             self.emit(0, "sleep %d" % (300 + self.r.below(1500)))
         d = self.k["cycle_density"]
@@ -978,7 +1023,7 @@ class Gen:
                         choices.append(("collectUnder", 5))
             if s.lspans:
                 choices.append(("toRecords", 1))
-            if len(lt) > 1 and r.chance(1, 20):
+            if len(lt) > 1 and not self.k.get("stepped") and r.chance(1, 20):
                 choices.append(("exit", 2))
             c = r.weighted(choices)
             if c == "root":
